@@ -248,7 +248,7 @@ def _(u):
 @unit("mtvrp.reward", file=F, func="MTVRPEnv._get_reward", props=("C03",))
 def _(u):
     B, N, T = u.dims("B N T")
-    td = u.td(B, locs=((B, N + 1, 2), "f"), open_route=((B, 1), "b"))
+    td = state(u, B, N)          # the whole state with arbitrary bookkeeping fields: the reward depends on the instance and the actions only
     act = u.tensor("actions", (B, T), "i")
     u.requires(u.forall((B, T), lambda b, t: AND(act.at(b, t) >= 0, act.at(b, t) <= N)))
     env = u.obj(F, "MTVRPEnv")
